@@ -443,7 +443,12 @@ impl<T: 'static> ArcAsyncDerived<T> {
         }
 
         // notify reactive subscribers that we're not loading any more
-        for sub in (&inner.read().or_poisoned().subscribers).into_iter() {
+        //
+        // Do not hold the lock while notifying: a subscriber that is re-running on
+        // another thread holds its own lock while it unsubscribes from this node
+        // (which takes `inner.write()`), and `mark_dirty` takes the subscriber's lock.
+        let subs = inner.read().or_poisoned().subscribers.clone();
+        for sub in subs {
             #[cfg(leptos_verif)]
             crate::verif_yield("ad:mark_sub");
             sub.mark_dirty();
